@@ -204,6 +204,9 @@ def make_instructions(at, progset, spec):
         for ts in instr.alloc.values():
             v0 = ts.vals[0]
             ts.insert(spec["start"] + 2, v0 * trend)
+    if spec.get("unfunded"):
+        ts = instr.alloc[spec["unfunded"]]
+        ts.vals = [0.0 for _ in ts.vals]
     return instr
 
 
@@ -417,6 +420,10 @@ def gen_optimization(ch):
     }
     if package is None and paired is None and ch.flip("optimization_object_reused", 0.3):
         spec["reused"] = [1.7, 0.5][ch.choose("reused.scale", 2)]
+    if package is None and paired is None and limit == "abs" and len(adjustments) >= 2 and ch.flip("frozen_unfunded_program", 0.35):
+        # a program that starts unfunded and must stay so: absolute bounds [0, 0]
+        adjustments[-1]["lower"], adjustments[-1]["upper"] = 0.0, 0.0
+        spec["unfunded"] = adjustments[-1]["prog"]
     return spec
 
 
@@ -779,6 +786,8 @@ def execute(spec, fault, bump):
                     else:
                         constraints = at.TotalSpendConstraint(budget_factor=c["budget_factor"])
                 optimization = at.Optimization(adjustments=adjustments, measurables=measurables, constraints=constraints, maxiters=spec["maxiters"], maxtime=spec["max_time"])
+                if spec.get("unfunded") and fault is None:
+                    bump("probe:program_frozen_at_zero_spend")
                 if spec.get("reused"):
                     # the caller loops over budget levels with ONE Optimization object: an earlier, un-faulted optimize()
                     # from another starting allocation precedes the call under test; the call under test must start
